@@ -301,7 +301,7 @@ impl Loader for Elf {
     }
 
     fn program_entry(&self) -> u64 {
-        self.elf().header.e_entry
+        self.elf().header.e_entry + self.base_address
     }
 
     fn architecture(&self) -> &dyn Architecture {
